@@ -36,9 +36,82 @@ type shellCfg struct {
 	Shell  string `json:"shell"`  // dash | bash | bash-posix
 	Locale string `json:"locale"` // C | C.UTF-8
 	Home   string `json:"home"`
+	// thorough tier: where on the command line the words stand, and shell settings around them
+	Ctx  string `json:"ctx,omitempty"`  // "" (arguments of argvdump) | tab | sh-c | eval | for | var | subst | herestr
+	Opts string `json:"opts,omitempty"` // "" | ifs-odd | ifs-empty | set-f | set-u | set-fu
+	Dir  string `json:"dir,omitempty"`  // "" (5 files) | rich (240 files named after the special characters)
 }
 
-func (c shellCfg) String() string { return c.Shell + "/" + c.Locale + "/HOME=" + c.Home }
+func (c shellCfg) String() string {
+	s := c.Shell + "/" + c.Locale + "/HOME=" + c.Home
+	if c.Ctx != "" {
+		s += "/ctx=" + c.Ctx
+	}
+	if c.Opts != "" {
+		s += "/" + c.Opts
+	}
+	if c.Dir != "" {
+		s += "/dir=" + c.Dir
+	}
+	return s
+}
+
+// label of the context part only (evidence)
+func (c shellCfg) ctxLabel() string {
+	l := c.Ctx
+	if l == "" {
+		l = "args"
+	}
+	if c.Opts != "" {
+		l += "+" + c.Opts
+	}
+	if c.Dir != "" {
+		l += "+dir-" + c.Dir
+	}
+	return l
+}
+
+// HOME values of the thorough tier (tilde form): $HOME/rest must arrive whatever HOME contains
+var extraHomes = []string{"/", "/vh/", "/vh *'\"$PWD;`touch canary`#~\\ x", "/vh\n\xff\xc3 \t$(touch canary)"}
+
+// contexts of the thorough tier; every one is crossed with the 3 shells x 2 locales (x 2 HOMEs)
+var ctxVariants = []shellCfg{
+	{Opts: "ifs-odd"}, {Opts: "ifs-empty"}, {Opts: "set-f"}, {Opts: "set-u"}, {Dir: "rich"}, {Dir: "rich", Opts: "set-fu"},
+	{Ctx: "tab"}, {Ctx: "sh-c"}, {Ctx: "eval"}, {Ctx: "eval", Opts: "ifs-odd"}, {Ctx: "for"}, {Ctx: "for", Opts: "ifs-odd"},
+	{Ctx: "var"}, {Ctx: "var", Opts: "ifs-odd"}, {Ctx: "var", Dir: "rich"}, {Ctx: "subst"}, {Ctx: "subst", Opts: "set-u"}, {Ctx: "herestr"},
+}
+
+// herestrOK: here-strings are a bash feature, and reading them back (read -r -d '') is
+// byte-exact only under LC_ALL=C: under C.UTF-8 bash's read builtin itself loses a 0x01 byte
+// inside certain invalid multibyte sequences (reproduced with a 60-byte random word quoted by
+// hand, while `cat <<< word` delivers it intact), which would be charged to the escaper.
+// The argument contexts have no such read-back step.
+func herestrOK(b shellCfg) bool { return b.Shell != "dash" && b.Locale == "C" }
+
+// ctxCfgs crosses the context variants with shells, locales and HOMEs (herestr: bash only).
+func ctxCfgs(tildeForm bool) []shellCfg {
+	var out []shellCfg
+	for _, v := range ctxVariants {
+		for _, b := range cfgsFor(tildeForm) {
+			if v.Ctx == "herestr" && !herestrOK(b) {
+				continue
+			}
+			c := v
+			c.Shell, c.Locale, c.Home = b.Shell, b.Locale, b.Home
+			out = append(out, c)
+		}
+	}
+	if tildeForm {
+		for _, h := range extraHomes {
+			for _, sh := range shellNames {
+				for _, lc := range localeNames {
+					out = append(out, shellCfg{Shell: sh, Locale: lc, Home: h})
+				}
+			}
+		}
+	}
+	return out
+}
 
 var shellNames = []string{"dash", "bash", "bash-posix"}
 var localeNames = []string{"C", "C.UTF-8"}
@@ -53,7 +126,7 @@ func cfgsFor(tildeForm bool) []shellCfg {
 	for _, sh := range shellNames {
 		for _, lc := range localeNames {
 			for _, h := range homes {
-				out = append(out, shellCfg{sh, lc, h})
+				out = append(out, shellCfg{Shell: sh, Locale: lc, Home: h})
 			}
 		}
 	}
@@ -63,6 +136,33 @@ func cfgsFor(tildeForm bool) []shellCfg {
 // the files of the working directory: an unquoted * ? [a] a* would visibly expand
 var cwdFiles = []string{".hidden", "a", "aa", "b c", "x.txt"}
 
+// the "rich" directory: a file for every string of length 1 and 2 over the alphabet of the
+// exhaustive sweep, so that most short inputs name an existing file and every glob matches
+func richFiles() []string {
+	var out []string
+	for _, a := range alphabet {
+		out = append(out, string([]byte{a}))
+		for _, b := range alphabet {
+			out = append(out, string([]byte{a, b}))
+		}
+	}
+	return out
+}
+
+func (e *shellEnv) dirPath(dir string) string {
+	if dir == "" {
+		return e.cwd
+	}
+	return e.cwd + "-" + dir
+}
+
+func dirFiles(dir string) []string {
+	if dir == "rich" {
+		return richFiles()
+	}
+	return cwdFiles
+}
+
 type shellEnv struct {
 	base     string // temp dir
 	bin      string // base/bin: argvdump, touch  (the PATH of the shells)
@@ -71,6 +171,7 @@ type shellEnv struct {
 	shells   map[string]string // name -> absolute path
 	nscript  int
 	runs     int64
+	dirReady map[string]bool
 }
 
 var errTool = errors.New("tool missing")
@@ -179,22 +280,31 @@ func newShellEnv() (*shellEnv, error) {
 
 func (e *shellEnv) close() { os.RemoveAll(e.base) }
 
-func (e *shellEnv) resetCwd() error {
-	os.RemoveAll(e.cwd)
-	if err := os.MkdirAll(e.cwd, 0o755); err != nil {
+func (e *shellEnv) resetCwd() error { return e.resetDir("") }
+
+func (e *shellEnv) resetDir(dir string) error {
+	p := e.dirPath(dir)
+	os.RemoveAll(p)
+	if err := os.MkdirAll(p, 0o755); err != nil {
 		return err
 	}
-	for _, f := range cwdFiles {
-		if err := os.WriteFile(filepath.Join(e.cwd, f), nil, 0o644); err != nil {
+	for _, f := range dirFiles(dir) {
+		if err := os.WriteFile(filepath.Join(p, f), nil, 0o644); err != nil {
 			return err
 		}
 	}
+	if e.dirReady == nil {
+		e.dirReady = map[string]bool{}
+	}
+	e.dirReady[dir] = true
 	return nil
 }
 
 // cwdDelta lists what differs from the initial content of the working directory.
-func (e *shellEnv) cwdDelta() []string {
-	ents, err := os.ReadDir(e.cwd)
+func (e *shellEnv) cwdDelta() []string { return e.dirDelta("") }
+
+func (e *shellEnv) dirDelta(dir string) []string {
+	ents, err := os.ReadDir(e.dirPath(dir))
 	if err != nil {
 		return []string{"working directory unreadable: " + err.Error()}
 	}
@@ -203,7 +313,7 @@ func (e *shellEnv) cwdDelta() []string {
 	for _, en := range ents {
 		have[en.Name()] = true
 	}
-	for _, f := range cwdFiles {
+	for _, f := range dirFiles(dir) {
 		if !have[f] {
 			delta = append(delta, "removed:"+f)
 		}
@@ -246,7 +356,12 @@ func (e *shellEnv) runScript(cfg shellCfg, script []byte) runOut {
 	}
 	args = append(args, path)
 	cmd := exec.Command(shPath, args...)
-	cmd.Dir = e.cwd
+	if !e.dirReady[cfg.Dir] {
+		if err := e.resetDir(cfg.Dir); err != nil {
+			return runOut{err: err}
+		}
+	}
+	cmd.Dir = e.dirPath(cfg.Dir)
 	cmd.Env = []string{"PATH=" + e.bin, "HOME=" + cfg.Home, "LC_ALL=" + cfg.Locale}
 	var so, se bytes.Buffer
 	cmd.Stdout, cmd.Stderr = &so, &se
@@ -285,38 +400,153 @@ type item struct {
 	want string // expected argv element under the configuration
 }
 
-func buildScript(argvdump string, items []item) (script, want []byte) {
-	var sb, wb bytes.Buffer
-	for i := 0; i < len(items); i += perLine {
-		j := i + perLine
-		if j > len(items) {
-			j = len(items)
+// plainQuote is the monitor's own quoting for the fixed parts of a script (never for a word
+// under test): single quotes, an embedded quote as '\”.
+func plainQuote(s string) string { return "'" + strings.ReplaceAll(s, "'", `'\''`) + "'" }
+
+const oddIFS = "a'\"\\/~ \n"
+
+// lineGroups cuts the items into command lines: at most perLine words and at most maxBytes of
+// word text each (a single argument may be up to 128 KiB, all of argv up to ARG_MAX).
+func lineGroups(items []item, maxWords, maxBytes int) [][]item {
+	var out [][]item
+	start, bytes := 0, 0
+	for i, it := range items {
+		n := len(it.esc) + len(it.want) + 16
+		if i > start && (i-start >= maxWords || bytes+n > maxBytes) {
+			out = append(out, items[start:i])
+			start, bytes = i, 0
 		}
-		sb.WriteString(argvdump)
-		for _, it := range items[i:j] {
-			sb.WriteByte(' ')
-			sb.WriteString(it.esc)
+		bytes += n
+	}
+	if start < len(items) {
+		out = append(out, items[start:])
+	}
+	return out
+}
+
+// buildScript writes the script of one batch under cfg and what argvdump must print.
+// The nested contexts (sh-c, eval) escape the whole inner command line with the real
+// ShellEscape once more - that is how such command lines are built by callers.
+func (e *shellEnv) buildScript(cfg shellCfg, items []item) (script, want []byte, problem string) {
+	var sb, wb bytes.Buffer
+	ad := e.argvdump
+	switch cfg.Opts {
+	case "ifs-odd":
+		sb.WriteString("IFS=" + plainQuote(oddIFS) + "\n")
+	case "ifs-empty":
+		sb.WriteString("IFS=''\n")
+	case "set-f":
+		sb.WriteString("set -f\n")
+	case "set-u":
+		sb.WriteString("set -u\n")
+	case "set-fu":
+		sb.WriteString("set -fu\n")
+	}
+	if cfg.Ctx == "subst" {
+		sb.WriteString("exec 3>&1\n")
+	}
+	maxWords, maxBytes := perLine, 512<<10
+	if cfg.Ctx == "sh-c" || cfg.Ctx == "eval" {
+		maxWords, maxBytes = 100, 12<<10 // the nested command line is one argument of sh -c
+	}
+	for _, g := range lineGroups(items, maxWords, maxBytes) {
+		for _, it := range g {
 			wb.WriteString(it.want)
+			if cfg.Ctx == "herestr" {
+				wb.WriteByte('\n') // a here-string is the word plus a newline; it is read back as it is
+			}
 			wb.WriteByte(0)
 		}
-		sb.WriteString(" " + sentinel + "\n")
 		wb.WriteString(sentinel)
 		wb.WriteByte(0)
+		switch cfg.Ctx {
+		case "":
+			sb.WriteString(ad)
+			for _, it := range g {
+				sb.WriteByte(' ')
+				sb.WriteString(it.esc)
+			}
+			sb.WriteString(" " + sentinel + "\n")
+		case "tab": // tabs between the words, an operator directly after the last one
+			sb.WriteString(ad)
+			for _, it := range g {
+				sb.WriteByte('\t')
+				sb.WriteString(it.esc)
+			}
+			sb.WriteString(";" + ad + " " + sentinel + "\n")
+		case "sh-c", "eval":
+			var in strings.Builder
+			in.WriteString(ad)
+			for _, it := range g {
+				in.WriteByte(' ')
+				in.WriteString(it.esc)
+			}
+			in.WriteString(" " + sentinel)
+			nested, p := callEscape(fnPlain, in.String())
+			if p != "" {
+				return nil, nil, "ShellEscape of the inner command line: " + p
+			}
+			if cfg.Ctx == "eval" {
+				sb.WriteString("eval " + nested + "\n")
+			} else {
+				sh := e.shells["dash"]
+				if cfg.Shell != "dash" {
+					sh = e.shells["bash"]
+				}
+				if cfg.Shell == "bash-posix" {
+					sh += " --posix"
+				}
+				sb.WriteString(sh + " -c " + nested + "\n")
+			}
+		case "for":
+			sb.WriteString("set --; for w in")
+			for _, it := range g {
+				sb.WriteByte(' ')
+				sb.WriteString(it.esc)
+			}
+			sb.WriteString("; do set -- \"$@\" \"$w\"; done; " + ad + " \"$@\" " + sentinel + "\n")
+		case "var":
+			var use strings.Builder
+			for k, it := range g {
+				fmt.Fprintf(&sb, "v%d=%s ", k, it.esc)
+				fmt.Fprintf(&use, " \"$v%d\"", k)
+			}
+			sb.WriteString("\n" + ad + use.String() + " " + sentinel + "\n")
+		case "subst":
+			sb.WriteString(": $(" + ad)
+			for _, it := range g {
+				sb.WriteByte(' ')
+				sb.WriteString(it.esc)
+			}
+			sb.WriteString(" " + sentinel + " >&3)\n")
+		case "herestr": // bash: the word as a here-string, read back without any interpretation
+			sb.WriteString("set --\n")
+			for _, it := range g {
+				sb.WriteString("IFS= read -r -d '' x <<< " + it.esc + "; set -- \"$@\" \"$x\"\n")
+			}
+			sb.WriteString(ad + " \"$@\" " + sentinel + "\n")
+		default:
+			return nil, nil, "unknown context " + cfg.Ctx
+		}
 	}
-	return sb.Bytes(), wb.Bytes()
+	return sb.Bytes(), wb.Bytes(), ""
 }
 
 // checkBatch runs the items under cfg. It returns "" when the shell saw exactly the expected
 // words and did nothing else; otherwise a description of what it observed.
 // inconclusive is set when the watchdog fired or the shell could not be started.
 func (e *shellEnv) checkBatch(cfg shellCfg, items []item) (observed string, inconclusive bool) {
-	script, want := buildScript(e.argvdump, items)
+	script, want, prob := e.buildScript(cfg, items)
+	if prob != "" {
+		return prob, false
+	}
 	ro := e.runScript(cfg, script)
 	if ro.err != nil {
 		return "cannot run " + cfg.Shell + ": " + ro.err.Error(), true
 	}
 	if ro.timedOut {
-		e.resetCwd()
+		e.resetDir(cfg.Dir)
 		return "watchdog: " + cfg.Shell + " did not finish the script", true
 	}
 	var bad []string
@@ -329,9 +559,9 @@ func (e *shellEnv) checkBatch(cfg shellCfg, items []item) (observed string, inco
 	if ro.exit != 0 {
 		bad = append(bad, fmt.Sprintf("exit status %d", ro.exit))
 	}
-	if d := e.cwdDelta(); len(d) > 0 {
+	if d := e.dirDelta(cfg.Dir); len(d) > 0 {
 		bad = append(bad, "working directory changed (a command ran): "+strings.Join(d, ","))
-		e.resetCwd()
+		e.resetDir(cfg.Dir)
 	}
 	return strings.Join(bad, "; "), false
 }
@@ -409,6 +639,28 @@ func (e *shellEnv) selfTest() string {
 			if strings.Contains(raw, "touch canary") && !strings.Contains(o, "created:canary") {
 				return fmt.Sprintf("%s: unescaped %q did not create the canary (%s)", cfg, raw, o)
 			}
+		}
+	}
+	return ""
+}
+
+// selfTestCtx: positive controls of the thorough contexts - in every context a correctly quoted
+// pair must round-trip and an unescaped command substitution must be seen to create the canary.
+func (e *shellEnv) selfTestCtx() string {
+	for _, cfg := range ctxCfgs(true) {
+		if cfg.Locale != "C" || cfg.Home == homeSpace {
+			continue
+		}
+		if o, inc := e.checkBatch(cfg, []item{{esc: "'a b'", want: "a b"}, {esc: "~/'x'", want: cfg.Home + "/x"}, {esc: "''", want: ""}}); o != "" || inc {
+			return cfg.String() + ": plain control failed: " + o
+		}
+		raw := "$(touch canary)"
+		o, inc := e.checkBatch(cfg, []item{{esc: raw, want: raw}})
+		if inc {
+			return cfg.String() + ": " + o
+		}
+		if !strings.Contains(o, "created:canary") {
+			return fmt.Sprintf("%s: unescaped %q did not create the canary (%s)", cfg, raw, o)
 		}
 	}
 	return ""
